@@ -359,6 +359,18 @@ def r02_6(ctx, layers):
                         sets = [x for x in p.events if x[0] == "set" and x[1] == p.end[1][1]]
                         ok_ret = bool(sets) and sets[-1][3] == recv
         r.ob("isolation:mutates-the-clone", ok_clone, g.site, "apply_change_set is applied to Router::clone(existing)")
+        # ... with the three lists of the change set as they were received (added / updated / deleted are
+        # classified by whoever computed the change set; the wrapper does not re-sort them)
+        given = True
+        seen_call = False
+        CS = "api::rules_message::RuleChangeSet"
+        for p in Sym(g, copies=True).paths():
+            for e in p.events:
+                if e[0] == "call" and e[1] == "router::Router::apply_change_set":
+                    seen_call = True
+                    want = [("field", ("param", 1), n, CS) for n in ("added", "updated", "deleted")]
+                    given = given and list(e[2][1:4]) == want
+        r.ob("changeset:update_existing_router:lists-as-given", given and seen_call, g.site, "apply_change_set receives self.added, self.updated, self.deleted in this order")
         r.ob("isolation:returns-the-clone", ok_ret, g.site, "the mutated clone is what is returned")
         t2 = F.types[g.j["inputs"][1]]
         r.ob("isolation:shared-arc-param", t2.get("adt") == "std::sync::Arc", g.site, "existing router is received as %s (immutable access only)" % t2["s"])
@@ -382,7 +394,7 @@ def r02_6(ctx, layers):
         for L in layers:
             imps = [i for i in F.impls if i.get("adt") == L.adt and i.get("trait") == "std::clone::Clone"]
             r.ob("isolation:derived-clone:%s" % L.short, bool(imps) and all(i["derived"] for i in imps), "", "%s: Clone is %s" % (L.short, "derived" if imps and all(i["derived"] for i in imps) else "hand-written or missing"))
-    ctx.run_rule("R02.6", "clone isolation (type level)", body, floor=19)
+    ctx.run_rule("R02.6", "clone isolation (type level)", body, floor=20)
 
 
 def multi_placement_buckets(L):
